@@ -28,7 +28,9 @@ CLAIMED = {
              "on the IHR, CommitNode sharing check) lies on every success path and has its verdict consumed (wrapper-aware, so "
              "inlining a helper does not alarm); that every index subtraction is bounded by read_natural(Some(index)), the word "
              "length by a constant <= 32 and the natural-number accumulator by 31 bits; that allocations sized by decoded "
-             "numbers are clamped; and that recursion reachable from the decoders is reviewed. Reports the genuine input-depth "
+             "numbers are clamped; that the value decoders treat the end of the witness stream as an error wherever they pull a bit "
+             "straight from the iterator (None reaches only error exits, never a 0 bit); and that recursion reachable from the decoders "
+             "is reviewed. The IHR rule holds for an explicit loop or an iterator adaptor with a verdict, in decode or a private helper. Reports the genuine input-depth "
              "recursion F-REC-UNIFY as a known finding. Does not decide totality in general nor re-encoding equality.",
         note=TRUST + "Assumes PostOrderIter's index bookkeeping (C18) and the bit reader's arithmetic (C13), which are not decided.",
         design="3/C02"),
@@ -57,6 +59,8 @@ CLAIMED = {
              "iteration of a possibly cyclic type (and its own completed-test precedes in-progress marking), that free variables "
              "finalise to unit, that error display is depth/length bounded, that finalize_types pins the root to 1→1 (both ends), that a "
              "fallible unification in an Arrow constructor returns its error (unwrap only on a still unconstrained fresh variable), "
+             "that Type::finalize writes every not-yet-complete bound back into the context before going on, that the error type is "
+             "built with a sharing traversal (not exponential for DAG-shaped types), "
              "and that the context mutex is never re-entered while held. Reports F-REC-UNIFY (input-depth recursion) as a known finding. "
              "Soundness/principality of the union-bound unifier itself is not decided.",
         note=TRUST + "The typing-rule table in c04.py is transcribed from the Simplicity language definition.",
@@ -102,14 +106,20 @@ CLAIMED = {
              "witness, disconnected branch, cached data or inference context), that all sibling CMR algebras "
              "(Arc<Node>, from_parts, ConstructibleCmr, Hiding) agree constructor by constructor with children in order - a "
              "hidden result's root is computed by the algebra of the same method, never a child's root passed through -, "
-             "that conversion copies the root, and that the IVs are distinct and used by the right constructor. "
+             "that conversion copies the root, that the IVs are distinct and used by the right constructor, that constant slices of "
+             "the fail entropy in Cmr::fail cover all 64 bytes, and that the human-readable printer writes the hidden branch root "
+             "stored in an assertl/assertr node (the variant's Cmr payload), not another root. "
              "Exact for these finite sets of sites; quantifies over all inputs because it is a dependence argument.",
         note=TRUST + "Assumes SHA-256 collision resistance for 'different structures get different roots'; the hash "
              "recipe inside Cmr::v is checked under C03.",
         design="3/C09"),
     "C10": dict(
         technique="provenance rule over work-stack continuations (which summand's type each carries, that the loop is type-directed), linear-form comparison of the accessor offsets with the padded layout, exhaustive abstract evaluation of the has_padding expressions over {child flags} x {width orderings}, guard-polarity/dominance rule for the padded fast path",
-        text="The property is arithmetic over every type shape and bit offset and is not decided. Five of its necessary conditions "
+        text="The property is arithmetic over every type shape and bit offset and is not decided. Nine of its necessary conditions "
+             "are decided; besides the five below: (rebrand) a Value/ValueRef literal that reuses another value's buffer takes its type "
+             "from that same value; (lifo) product rebuilds pop the right result first and push the left sub-task last; (padside) "
+             "Value::left/right concatenate (padding, payload) in that order; (word) a Word literal pairs a value with the exponent "
+             "of its own width (uK: log2 K, product of two words: n + 1, copy: same n). The first five "
              "are visible in the code's shape and are decided: (sumtype) in the iterative compact decoder and in Value::prune the "
              "continuation of a left injection carries the right summand's type and vice versa, the sub-task pushed with it processes "
              "the summand on the value's own side, product components are paired index by index, and the decoder reads a 0 bit as "
@@ -128,7 +138,8 @@ CLAIMED = {
         technique="call-graph + provenance analysis of the comparison trait impls (which view of the data they consume)",
         text="Decides that Value's ==, Ord and Hash (and Word's derived ones, and Final's) consume only the canonical "
              "type-directed compact view of a value after its type, the same view in all three, and never the raw bytes "
-             "of the shared buffer or the buffer/offset fields: a necessary condition of representation-independent "
+             "of the shared buffer or the buffer/offset fields, nor first collapse that view into a fixed-size integer (fold/sum/count), "
+             "and that types are never compared by address (per-thread type tables): a necessary condition of representation-independent "
              "equality that is exact because the impls are three small functions. Found the genuine defect F-EQ (repaired).",
         note=TRUST + "Assumes CompactBitsIter yields exactly the information bits of a value of its type (bit-level "
              "correctness of Value is C10, not decided).",
@@ -138,7 +149,8 @@ CLAIMED = {
         text="Decides, for every producer of a witness value for a Redeem node (all Converter<_,Redeem>::convert_witness impls, "
              "found by trait-impl query), that each Ok path returns a value built by a type-directed source applied to the "
              "node's finalised target type or an incoming value dominated by a successful is_of_type test; that RedeemData::new "
-             "is only reachable from those converters; and that expect/unwrap behind a type test is unreachable. "
+             "is only reachable from those converters; that expect/unwrap behind a type test is unreachable; and that no Redeem converter "
+             "outside pruning unwraps the result of Type/Arrow::finalize (the occurs check runs only there). "
              "Reports the genuine defect F-WIT (known finding: its repair breaks an existing test that relies on it).",
         note=TRUST + "SimpleFinalizer is excluded by the property's wording. Assumes Value::from_compact_bits/zero/prune return "
              "values of the type they are given (C10).",
@@ -168,7 +180,10 @@ CLAIMED = {
              "the 12 struct literals no two same-typed fields are cross-wired - a field is initialised from the source whose access "
              "path carries its own name rather than its sibling's (amount / inflation_keys, the two range proofs, asset / nonce, ...), "
              "also argument by argument inside one initialiser; the rule fires only when the exchanged assignment matches the names "
-             "strictly better; (args) same for same-typed arguments between the marshalling functions; (alloc) ElementsEnv::new builds "
+             "strictly better; (passover) a field named like a member (field or argument-less method) of a structure the function reads "
+             "from - foreign-crate types included, their field lists and inherent methods are extracted by the driver - is read from "
+             "that member, not from a same-typed sibling (genesis_hash / referenced_block, script_sig / script_pubkey, txid / wtxid); "
+             "(args) same for same-typed arguments between the marshalling functions; (alloc) ElementsEnv::new builds "
              "the environment from new_tx(tx, utxos), new_tap_env(control_block, script_cmr), the genesis hash and the index, "
              "c_set_txEnv receives them in the C parameter order, and Drop for CTxEnv frees exactly the two malloc'ed objects once each. "
              "Struct layouts and extern signatures are C14. Field values, annex detection, serialisation of confidential fields and "
@@ -191,7 +206,8 @@ CLAIMED = {
              "(read from format_args templates and Display impls in MIR) is the token parse_expr maps back to that combinator; literal "
              "CMRs are carried into the assertion built from them; every token the type printer can emit (1, 2, every 2^k it can print, "
              "+, *, parentheses, postfix ? at operand level) has a rule in parse_type*; generated names lex as one symbol, are checked "
-             "against the program's own names, and every referenced node is printed; str slices cannot split a character; parser "
+             "against the program's own names, and every referenced node is printed; the parser's two length guards on a fail literal "
+             "admit the 512 bits the printer always writes; str slices cannot split a character; parser "
              "recursion is reviewed. Found eight genuine defects (all repaired, see known_findings.json) and the input-depth recursions "
              "of the recursive-descent parser (known findings). Equality of types/encoding after re-parsing is not decided.",
         note=TRUST + "The logos attributes are read from the source text of enum Token (rustc drops derive-helper attributes); assumes "
